@@ -15,7 +15,7 @@ def run(tier, replay=None):
     corpus, sv, vectors, stats = V.build(tier, k=1 if tier == 'quick' else 4, envs=['world:vanilla', 'world:tbc', 'world:wrath'])
     cand = [v for v in vectors if len(v['hex']) < 4000]
     pool = S.good_pool(binary, cand)
-    n_keys, per_key, max_len = (50, 4, 12) if tier == 'quick' else (1500, 2, 30)
+    n_keys, per_key, max_len = (50, 4, 12) if tier == 'quick' else (4000, 2, 40)
     rows, seqs = [], {}
     if replay:
         rp = json.load(open(replay))
